@@ -5,7 +5,7 @@ TMP = tempfile.mkdtemp()
 HDR = '''From Coq Require Import String.
 From PS Require Import Base GFDefs PackDefs StoreDefs MiscDefs StrDefs LangDefs ApiDefs SpecDefs SpecApi.
 From PS Require Import GFProofs MiscProofs CoinProofs PackProofs PackTheorems StoreProofs SeedProofs ApiLemmas.
-From PS Require Import StrProofs CTieBase CTieLang CTiePhrase CTiePhraseEv CTieSplit CTieApi CTieDecode CTieEncode CTieLocals.
+From PS Require Import StrProofs CTieBase CTieLang CTiePhrase CTiePhraseEv CTieSplit CTieApi CTieDecode CTieEncode CTieLocals CTieInject CTieCmp.
 From PS.Gen Require Import Consts PrivConsts Langs.
 From PS.Gen Require CFuns CApi.
 Local Open Scope N_scope.
@@ -23,7 +23,7 @@ def typ(name):
 IMPORTS = '''
 (* ---- the tie to the code: src/polyseed.c as TRANSLATED on this run (Gen/CApi.v) ---- *)
 From Coq Require Import String.
-From PS Require Import Base GFDefs PackDefs StoreDefs MiscDefs StrDefs LangDefs ApiDefs GFProofs PackProofs StoreProofs CTieBase CTieLang CTiePhrase CTiePhraseEv CTieSplit CTieApi CTieDecode CTieEncode CTieLocals.
+From PS Require Import Base GFDefs PackDefs StoreDefs MiscDefs StrDefs LangDefs ApiDefs GFProofs PackProofs StoreProofs CTieBase CTieLang CTiePhrase CTiePhraseEv CTieSplit CTieApi CTieDecode CTieEncode CTieLocals CTieInject CTieCmp.
 From PS.Gen Require Import Consts PrivConsts Langs.
 From PS.Gen Require CFuns.
 From PS.Gen Require CApi.
@@ -60,7 +60,9 @@ PLAN = {
          ('locals','tie_locals','the automatic arrays and structs of every translated API function, as found in the current source, are the objects the wipe accounting knows plus the two public salts: a new temporary breaks this'),
          ('locals_accounted','locals_accounted','each of them maps to an object of the mirror (CTieApi.cobj) or is a salt')],
  'C18': [('api_create','tie_create','polyseed_create as translated: one allocation, one clock read, one request for 19 random bytes - all through the table - and the secret is those bytes'),
-         ('api_keygen','tie_keygen','polyseed_keygen as translated: the key is what the injected KDF wrote')],
+         ('api_keygen','tie_keygen','polyseed_keygen as translated: the key is what the injected KDF wrote'),
+         ('inject','tie_inject','polyseed_inject as translated (release build): the table in place afterwards is a copy of the one handed in, NULL time / alloc / free replaced each by its own libc default, every entry replaced, nothing kept from the previous table')],
+ 'C08': [('get_comparer','tie_get_comparer','get_comparer as translated: the comparer selected for a language from its two flags, run as translated, is the mirror comparer of the one token rule')],
 }
 for prop, items in PLAN.items():
     p = '/verif/coq/Properties_%s_tie.v' % prop
